@@ -26,6 +26,8 @@ func main() {
 
 const maxOut = 200
 
+var slowLimit = 150 * time.Millisecond
+
 type emitted struct {
 	val  any
 	snap string
@@ -147,9 +149,13 @@ func history(c *Ctx, j c56.Job, mode int) (viol string, digest string, skipped s
 		return ""
 	}
 	// run 1: every emitted value stays unchanged while the iterator advances and after it finished
+	t0 := time.Now()
 	r1, st1, v := collect(cc, in.Value, vars, func(sofar []emitted) string { return recheck("run 1 advancing", sofar) })
 	if st1 == "timeout" {
 		return "", "", "timeout"
+	}
+	if v == "" && time.Since(t0) > slowLimit {
+		return "", "", "slow"
 	}
 	if v != "" {
 		return v, "", ""
@@ -256,7 +262,7 @@ func history(c *Ctx, j c56.Job, mode int) (viol string, digest string, skipped s
 // runHist: args: jobs=<file> (corpus jobs appended to generated ones), start=<k>, replay=<case text>
 func runHist(c *Ctx) {
 	var jobs []c56.Job
-	start := 0
+	start, shard, nshard := 0, 0, 1
 	modes := []int{0, 1, 2}
 	for _, a := range c.Args {
 		if p, ok := strings.CutPrefix(a, "jobs="); ok {
@@ -268,6 +274,8 @@ func runHist(c *Ctx) {
 			jobs = append(jobs, js...)
 		} else if s, ok := strings.CutPrefix(a, "start="); ok {
 			start, _ = strconv.Atoi(s)
+		} else if s, ok := strings.CutPrefix(a, "shard="); ok {
+			fmt.Sscanf(s, "%d/%d", &shard, &nshard)
 		} else if s, ok := strings.CutPrefix(a, "replay="); ok {
 			_, extra, j, ok := c56.ParseCase(s)
 			if !ok {
@@ -283,13 +291,17 @@ func runHist(c *Ctx) {
 	probeInputs := 2
 	if c.Tier == "thorough" {
 		probeInputs = len(c56.Inputs)
+		slowLimit = 1500 * time.Millisecond
 	}
 	if c.N > 0 {
 		jobs = append(c56.GenJobs(c.Rng, c.N, probeInputs), jobs...)
 	}
 	for i := start; i < len(jobs); i++ {
+		if i%nshard != shard {
+			continue
+		}
 		j := jobs[i]
-		os.Stderr.WriteString("##BEGIN " + strconv.Itoa(i) + "\n")
+		say("B %d", i)
 		for _, mode := range modes {
 			if j.Origin == "corpus" && mode == 1 {
 				continue
@@ -297,17 +309,23 @@ func runHist(c *Ctx) {
 			viol, digest, skipped := history(c, j, mode)
 			c.Count("origin:" + j.Origin)
 			if skipped != "" {
+				say("S %d %s", i, skipped)
 				c.Count("skipped:" + skipped)
-				if skipped == "compile" {
+				if skipped != "" {
 					break
 				}
 				continue
 			}
-			c.Emit("(hist %d %d %s)", i, mode, digest)
+			say("H %d %d %s %s", i, mode, j.Origin, digest)
 			if viol != "" {
-				c.Violation("%s\t%s", c56.CaseText("c05", j, "alias="+strconv.Itoa(mode)), viol)
+				say("V %s\t%s", c56.CaseText("c05", j, "alias="+strconv.Itoa(mode)), strings.ReplaceAll(viol, "\n", " "))
 			}
 		}
 	}
-	os.Stderr.WriteString("##END\n")
+	say("E")
+}
+
+// say writes one protocol record to stdout immediately (a later crash must not lose it).
+func say(format string, a ...any) {
+	os.Stdout.WriteString(fmt.Sprintf(format, a...) + "\n")
 }
